@@ -435,7 +435,9 @@ func (vc *FuncVC) wellTyped(v Val, st *State) Term {
 	case *FV:
 		switch x.T.Underlying().(type) {
 		case *types.Slice:
-			big62 := enc.idxLit(1 << 62)
+			// a slice that exists was allocated: its backing array is at most
+			// maxAlloc = 2^48 bytes on amd64 (runtime/malloc.go)
+			big62 := enc.idxLit(maxAllocElems(x.T.Underlying().(*types.Slice).Elem()))
 			return mkAnd(
 				enc.idxLe(enc.idxLit(0), x.Off()), enc.idxLe(x.Off(), big62),
 				enc.idxLe(enc.idxLit(0), x.Len()), enc.idxLe(x.Len(), x.Cap()), enc.idxLe(x.Cap(), big62),
@@ -447,7 +449,7 @@ func (vc *FuncVC) wellTyped(v Val, st *State) Term {
 			return mkAnd(app(SBool, ">=", x.L[0], intLit64(0)), mkImplies(mkEq(x.L[0], intLit64(0)), mkEq(x.L[1], intLit64(0))))
 		case *types.Basic:
 			if isString(x.T) {
-				big62 := enc.idxLit(1 << 62)
+				big62 := enc.idxLit(1 << 48)
 				return mkAnd(enc.idxLe(enc.idxLit(0), x.Off()), enc.idxLe(x.Off(), big62),
 					enc.idxLe(enc.idxLit(0), x.Len()), enc.idxLe(x.Len(), big62))
 			}
@@ -1248,4 +1250,20 @@ func (vc *FuncVC) frameAssume(key string, now, before Term) Term {
 	}
 	body := mkImplies(mkAnd(conds...), mkEq(mkSelect(now, rv), mkSelect(before, rv)))
 	return Term{fmt.Sprintf("(forall ((%s Int)) (! %s :pattern ((select %s %s))))", name, body.S, now.S, name), SBool}
+}
+
+
+var amd64Sizes = types.SizesFor("gc", "amd64")
+
+// maxAllocElems: the largest number of elements of type t that one allocation
+// can hold on amd64 (maxAlloc = 2^48 bytes).
+func maxAllocElems(t types.Type) int64 {
+	sz := int64(1)
+	func() {
+		defer func() { recover() }()
+		if n := amd64Sizes.Sizeof(t); n > 1 {
+			sz = n
+		}
+	}()
+	return (int64(1) << 48) / sz
 }
